@@ -1020,6 +1020,44 @@ def d15_leaf_means_no_container(chk: Check) -> None:
                          kind, sorted(named)))
 
 
+def d4e_operator_consulted_for_every_element(chk: Check) -> None:
+    """`[.OP term]` over an Array-of-Hashes: an element is selected when it
+    has a key named like the term *or* when the comparison OP holds for it.
+    Written as a conditional expression (`term in ele if is_aoh ... else
+    search_matches(...)`) the comparison is skipped for every Hash element,
+    so `users[.%admin]` finds nothing and `users[.!%admin]` everything."""
+    prog = chk.prog
+    chk.rule("C01-D4e", "no call of Searches.search_matches in the search "
+             "handler is a branch of a conditional expression (the operator "
+             "is consulted for every candidate)", floor=4)
+    fi = prog.func("Processor._get_nodes_by_search")
+    n = 0
+    for c in walk_local(fi.node):
+        if not (isinstance(c, ast.Call) and
+                src(c.func).endswith("search_matches")):
+            continue
+        n += 1
+        branch = None
+        child = c
+        for a in ancestors(c):
+            if isinstance(a, ast.stmt):
+                break
+            if isinstance(a, ast.IfExp) and a.test is not child:
+                branch = a
+            child = a
+        text = "search_matches(...) at an element test"
+        if branch is not None:
+            chk.fail("C01-D4e", fi, branch, text,
+                     "the comparison is one branch of `{}`: for the "
+                     "candidates that take the other branch the search "
+                     "operator is never consulted".format(
+                         src(branch)[:60]))
+        else:
+            chk.ok("C01-D4e", fi, c, text, "always evaluated", False)
+    if n < 4:
+        raise AnalysisError("search_matches calls: {}".format(n))
+
+
 def d5b_scalars_have_no_attributes(chk: Check) -> None:
     """`[name=value]` on a scalar: a scalar has no attribute `name`, so the
     plain search does not select it (and the inverted one does).  Only the
@@ -1070,6 +1108,7 @@ def run(chk: Check) -> None:
     d6b_guard_completeness(chk)
     d13_filtered_traversal_recursion(chk)
     d15_leaf_means_no_container(chk)
+    d4e_operator_consulted_for_every_element(chk)
     from rules.shared import merge_identity_rule
     merge_identity_rule(chk, "C01-D14", ("yamlpath/processor.py",), 3)
     d1_dispatch(chk)
